@@ -105,6 +105,7 @@ def qualify_reasons(meta):
             if a != b: break
             same += 1
         if same == 0 and (target[0] in cur or cur[0] == "exports"): continue          # root-qualified
+        if same >= len(target): continue                                                  # target is a parent namespace of cur
         X = target[same]
         for k in range(same + 1, len(cur) + 1):
             if any(p[:k + 1] == cur[:k] + [X] for p in decl):
